@@ -38,6 +38,9 @@ private:
   using liveness_map_t = std::unordered_map<basic_block_label_t, binding_t>;
   
   liveness_map_t m_liveness_map;
+  // for each block with an unreachable statement: the variables used
+  // before that statement
+  std::unordered_map<basic_block_label_t, varset_domain_t> m_unreachable_map;
 public:
   liveness_analysis_operations(CFG cfg) : parent_type(cfg) {}
 
@@ -65,8 +68,13 @@ public:
       varset_domain_t kill, gen;
       for (auto &s : boost::make_iterator_range(b.rbegin(), b.rend())) {
 	if (s.is_unreachable()) {
+	  // Nothing after this statement executes: discard what was
+	  // collected so far, but keep scanning because the
+	  // statements before it do execute and their uses are real.
 	  is_unreachable_block = true;
-	  break;
+	  kill = varset_domain_t::bottom();
+	  gen = varset_domain_t::bottom();
+	  continue;
 	} 
         auto const &live = s.get_live();
         for (auto d :
@@ -81,6 +89,8 @@ public:
       } // end for
       if (!is_unreachable_block) {
 	m_liveness_map.insert(std::make_pair(b.label(), binding_t(kill, gen)));
+      } else {
+	m_unreachable_map.insert(std::make_pair(b.label(), gen));
       }
     } // end for
   }
@@ -92,8 +102,11 @@ public:
       in -= it->second.first;
       in += it->second.second;
     } else {
-      // bb_id is unreachable
-      in = varset_domain_t::bottom(); // empty set (i.e., no live variables)
+      // bb_id contains an unreachable statement: what is live after
+      // the block does not matter, only the uses before that statement.
+      auto uit = m_unreachable_map.find(bb_id);
+      in = (uit != m_unreachable_map.end() ? uit->second
+                                           : varset_domain_t::bottom());
     } 
     return in;
   }
